@@ -56,6 +56,7 @@ K_DENSE_SPLAT = "dense-float-splat-loses-zero-sign"
 K_DENSE_NAN = "dense-float-nan-bits-canonicalised-by-printer"
 K_ARRAY_NAN = "dense-array-float-nan-bits-canonicalised-by-printer"
 K_RES = "dense-resource-handle-renamed-process-global-state"
+K_COMPLEX_HEX_INT = "dense-complex-float-hex-elements-reparsed-as-integers"
 K_ARRAY_HEX = "dense-array-float-hex-element-unparsable"
 K_COMPLEX_HEX = "dense-complex-float-hex-element-unparsable"
 K_STRLIT = "nonascii-string-literal-position-unparsable"
@@ -224,7 +225,7 @@ def _dense_model(o, n):
                 return None
             if predicted != y:
                 return None
-            keys.add(K_DENSE_HEX)
+            keys.add(K_DENSE_HEX if per == 1 else K_COMPLEX_HEX_INT)
     return sorted(keys) or None
 
 
@@ -356,34 +357,34 @@ def classify(ctx, a, res):
         return out
     if oc == "trailing":
         return [(f"roundtrip-trailing-text:{type(a).__name__}", res["err"], {})]
-    # print / parse failure: differential repair
+    # print / parse failure: differential repair (1-minimal set of feature repairs that makes the value round-trip)
     stage = "print" if oc == "printfail" else "parse"
     feats = sorted(genattr.features(a) & set(FAIL_FEATURES))
     generic = (f"{stage}-fails:{type(a).__name__}:{res.get('site', '?')}", f"{stage} of a valid value failed: {res['err']}", {})
     if not feats:
         return [generic]
-    fixed = repair(a, set(feats))
+    fails = ("printfail", "parsefail", "trailing")
+    need = set(feats)
+    if roundtrip(ctx, repair(a, need))["outcome"] in fails:
+        return [generic]  # not explained by the known failure features
+    for ft in feats:
+        if roundtrip(ctx, repair(a, need - {ft}))["outcome"] not in fails:
+            need.discard(ft)
+    fixed = repair(a, need)
     r2 = roundtrip(ctx, fixed)
-    if r2["outcome"] in ("printfail", "parsefail", "trailing"):
-        return [generic]
     if r2["outcome"] == "diff":
         out.extend(classify(ctx, fixed, r2))
-    responsible = 0
-    for ft in feats:
-        only = repair(a, set(feats) - {ft})
-        r3 = roundtrip(ctx, only)
-        if r3["outcome"] not in ("printfail", "parsefail"):
-            continue  # this feature alone does not make the value fail
+    for ft in sorted(need):
+        r3 = roundtrip(ctx, repair(a, need - {ft}))  # fails by minimality; the diagnostic belongs to feature ft
         key, want_stage, needles = FAIL_FEATURES[ft]
         got_stage = "print" if r3["outcome"] == "printfail" else "parse"
-        if got_stage != want_stage or not any(nd in r3["err"] for nd in needles) or (
-                got_stage == "parse" and not r3.get("is_parse_error")):
+        if r3["outcome"] not in ("printfail", "parsefail") or got_stage != want_stage or not any(
+                nd in r3["err"] for nd in needles) or (got_stage == "parse" and not r3.get("is_parse_error")):
             out.append((key + ":unexpected-diagnostic", f"feature {ft} fails with an unexpected diagnostic: {r3['err']}",
                         {"only_text": r3["text"]}))
         else:
             out.append((key, f"value with feature {ft} fails to {want_stage} ({r3['err']}); without it the value round-trips", {}))
-        responsible += 1
-    if not responsible:
+    if not need:
         return [generic]
     return out
 
